@@ -678,8 +678,10 @@ def client_miss(E, meth, bound):
     """What Client.<meth> returns for a miss with these (bound) arguments: computed by executing the real
     Client.<meth> with _fetch_cmd answering {} (no item found)."""
     st = State()
-    me = st.new_obj(CL, {"key_prefix": BytesV(z3.String("kp")), "sock": NONE})
+    me = st.new_obj(CL, {"key_prefix": BytesV(z3.String("kp")), "sock": NONE, "encoding": StrV(z3.StringVal("ascii"))})
     saved = dict(E.contracts)
+    saved_inline = set(E.inline)
+    E.inline |= {CL + "._check_integer"}
 
     def fetch_empty(E_, s, args, kwargs, selfv, site):
         return [Outcome("return", s, s.new_dict([]))]
@@ -691,6 +693,7 @@ def client_miss(E, meth, bound):
         outs = [o for o in E.run_function("%s.%s" % (CL, meth), st, args, {}, selfv=me) if o.kind == "return"]
     finally:
         E.contracts = saved
+        E.inline = saved_inline
     if len(outs) == 1:
         return outs[0].val, outs[0].st
     # `if not keys: return {}` forks on the truthiness of keys: both paths return an empty dict
